@@ -8,8 +8,8 @@
 package modset
 
 import (
-	"sort"
 	"fmt"
+	"sort"
 	"strings"
 
 	"verif/sim/kit"
